@@ -24,7 +24,7 @@ func init() {
 			"non-trivial = at least two rings/members whose envelopes intersect, or a ring with a self-contact; distinct by the canonical candidate text",
 		Assumptions:      []string{"lattice inputs: the oracle (verif/exact: ring simplicity, <=1 common point per ring pair, containment, nesting, interior connectedness by two independent criteria, member interiors/edges via the arrangement) is exact", "oracle inconsistency between its two connectedness criteria => case skipped and counted"},
 		MinNontrivial:    500,
-		RequiredMonitors: []string{"oracle-vs-validate", "repr-invariance", "simple", "ring-closed", "decoder-gate", "nonfinite", "collection-gate", "concrete-entry"},
+		RequiredMonitors: []string{"oracle-vs-validate", "repr-invariance", "simple", "ring-closed", "decoder-gate", "nonfinite", "collection-gate", "concrete-entry", "payload-blind"},
 		Run:              runAll,
 	})
 }
